@@ -42,6 +42,7 @@ type Step struct {
 	SElems int       `json:"staged_elems"`
 	SConts int       `json:"staged_conts"`
 	Owner  int       `json:"ownership_defects"` // VerifStagedOwnership: cleared + shared
+	Lost   [5]int    `json:"autodraining"`      // what rests in stopped peers' autodraining queues, as a pool vector
 }
 
 type Case struct {
@@ -81,19 +82,21 @@ type rpeer struct {
 }
 
 type runner struct {
-	w        *cosim.World
-	cfg      [3]int
-	peers    map[int]*rpeer
-	sessions []*session
-	inits    []captured
-	nextRidx uint32
-	steps    []Step
-	skipped  int
-	stuck    string
-	closed   bool
-	poisoned bool
-	cookie   []byte  // cookie learnt from the device for floodSrc
-	cookieOf ref.Key // device identity the cookie was issued under
+	w          *cosim.World
+	cfg        [3]int
+	peers      map[int]*rpeer
+	sessions   []*session
+	inits      []captured
+	nextRidx   uint32
+	steps      []Step
+	skipped    int
+	stuck      string
+	closed     bool
+	poisoned   bool
+	unobserved bool
+	straggled  bool
+	cookie     []byte  // cookie learnt from the device for floodSrc
+	cookieOf   ref.Key // device identity the cookie was issued under
 }
 
 var floodSrc = netip.MustParseAddrPort("198.51.100.77:7777")
@@ -128,9 +131,13 @@ func (r *runner) record(ev string) {
 			st.SElems += r.w.Dev.VerifStagedPackets(pk)
 			st.SConts += r.w.Dev.VerifPeer(pk).StagedLen
 		}
+		ic, ie, oc, oe := r.w.Dev.VerifAutodrainingQueues()
+		st.Lost = [5]int{ic, oc, ie + oe, ie, oe}
 		_, cleared, shared := r.w.Dev.VerifStagedOwnership()
 		st.Owner = cleared + shared
-		if st.Owner > 0 {
+		if r.unobserved {
+			st.Owner = 4294967295
+		} else if st.Owner > 0 {
 			// a queued element that is not owned by its queue: going on could crash the device (nil buffer in the
 			// encryption worker); the rest of the plan is skipped
 			r.poisoned = true
@@ -522,10 +529,91 @@ func (r *runner) do(a string) bool {
 		time.Sleep(2 * time.Millisecond)
 		r.record("EClose")
 	case "gc":
-		runtime.GC()
-		runtime.GC()
-		time.Sleep(5 * time.Millisecond)
+		// finalisers of the autodraining queues run on their own goroutine after a collection; when stragglers were
+		// injected in this scenario something has to be collected: give the collector and the finaliser goroutine more
+		// rounds (a peer can stay reachable for a moment from the stack of the goroutine that closed the device)
+		rounds := 2
+		if r.straggled {
+			rounds = 8
+		}
+		for i := 0; i < rounds; i++ {
+			runtime.GC()
+			time.Sleep(3 * time.Millisecond)
+		}
 		r.record("EGC")
+	case "removeheld": // removeheld J : remove=true while J's sequential receiver is held inside tun.Write; one more datagram arrives meanwhile
+		j := arg(1)
+		p := r.peers[j]
+		ss := r.sessionOf(j, -1)
+		if !r.up() || p == nil || ss == nil {
+			r.skipped++
+			return true
+		}
+		sl := r.slotOf(j, ss.devIdx)
+		if st := r.w.Dev.VerifPeer(pkOf(p.pub)); sl < 0 || !st.Found || !st.Running {
+			r.skipped++
+			return true
+		}
+		inner := ref.Pad(ref.IPv4([4]byte{10, 0, byte(j), 2}, [4]byte{10, 9, 9, 9}, 60, 3))
+		gate := make(chan struct{})
+		blocked := make(chan struct{})
+		var first atomic.Bool
+		r.w.Tun.WriteGate = func(bufs [][]byte) {
+			if first.CompareAndSwap(false, true) {
+				close(blocked)
+				<-gate
+			}
+		}
+		r.w.Bind.Inject(sim.Dgram{From: p.addr, Data: ss.s.Next(inner)})
+		select {
+		case <-blocked:
+		case <-time.After(3 * time.Second):
+			r.w.Tun.WriteGate = nil
+			if first.CompareAndSwap(false, true) {
+				r.skipped++
+				r.w.Settle()
+				return true
+			}
+		}
+		done := make(chan struct{})
+		go func() {
+			r.w.Dev.IpcSet("public_key=" + hex.EncodeToString(p.pub[:]) + "\nremove=true\n")
+			close(done)
+		}()
+		// RemovePeer now waits in Peer.Stop for the held receiver and holds the peer-map lock: no accessor that takes
+		// that lock may be called until it has returned
+		time.Sleep(20 * time.Millisecond)
+		r.w.Bind.Inject(sim.Dgram{From: p.addr, Data: ss.s.Next(inner)})
+		t0 := time.Now()
+		for !r.w.Bind.Idle() && time.Since(t0) < 2*time.Second {
+			time.Sleep(200 * time.Microsecond)
+		}
+		time.Sleep(20 * time.Millisecond)
+		close(gate)
+		select {
+		case <-done:
+		case <-time.After(10 * time.Second):
+			r.stuck = "remove=true did not return"
+			return false
+		}
+		r.w.Tun.WriteGate = nil
+		r.harvest(r.w.Take())
+		// the first datagram is delivered, the peer is removed, the second datagram found a peer that is being stopped
+		// (its keypair still in the index table): nothing of this may stay outstanding
+		// (the states in between cannot be read: only the last record is compared and judged)
+		r.unobserved = true
+		r.record(fmt.Sprintf("ENet [DData %d %d 0]", j, sl))
+		r.record(fmt.Sprintf("ERemovePeer %d", j))
+		r.unobserved = false
+		r.record(fmt.Sprintf("ENet [DData %d %d 0]", j, sl))
+	case "straggle": // straggle J KIN KOUT : containers left behind Stop's terminator on peer J's queues (peer must be stopped)
+		p := r.peers[arg(1)]
+		if p == nil || !r.w.Dev.VerifInjectStragglers(pkOf(p.pub), arg(2), arg(3)) {
+			r.skipped++
+			return true
+		}
+		r.straggled = true
+		r.record(fmt.Sprintf("EStraggle %d %d %d", p.id, arg(2), arg(3)))
 	case "nonce": // nonce J V : counter := RejectAfterMessages - V
 		p := r.peers[arg(1)]
 		if p == nil || !r.w.Dev.VerifSetSendNonce(pkOf(p.pub), device.RejectAfterMessages-uint64(arg(2))) {
@@ -786,7 +874,7 @@ var stallBranches = []string{
 	"tun-noroute", "tun-badversion", "tun-short", "tun-empty", "tun-peer-stopped", "tun-delivered", "tun-no-endpoint-send",
 	"net-runt", "net-type", "net-hsize", "net-index", "net-expired", "net-auth", "net-replay", "net-badlen", "net-badsrc",
 	"net-badver", "net-keepalive", "net-data", "net-mac1", "net-badinit", "net-oldts", "net-badresp", "net-cookie", "net-underload",
-	"net-ratelimited",
+	"net-ratelimited", "tun-peer-configured-while-down",
 	"net-removed-peer", "staged-flush-remove", "staged-flush-down",
 }
 
@@ -834,6 +922,9 @@ func stallScenario(cfg [3]int, branch string, items int) Case {
 		unit = "tun " + rep("e", tb, ",")
 	case "tun-peer-stopped":
 		pre = []string{"down"}
+		unit = "tun " + rep("r1", tb, ",")
+	case "tun-peer-configured-while-down":
+		pre = []string{"down", "add 1 ep"}
 		unit = "tun " + rep("r1", tb, ",")
 	case "tun-delivered":
 		unit = "tun " + rep("r1", tb, ",")
@@ -1089,6 +1180,15 @@ func directedPlans() (plans [][]string, names []string) {
 	add("tun-read-error-then-close", "tunerr r3,r1", "tunerr r3", "close", "gc")
 	add("tun-read-error-then-fatal-read", "tunerr r3,r3,r2", "tun r3", "tunerr r1", "fatalread", "gc")
 	add("fatal-read-with-staged", "tun r3,r3", "fatalread", "gc")
+	add("stragglers-flushed-by-start", "down", "straggle 1 2 3", "up", "tun r1", "down", "straggle 1 1 0", "straggle 2 0 2", "straggle 1 3 1", "up", "net t 1 -1 ok", "down", "up")
+	// outbound stragglers are only used where Peer.Start flushes them: after the peer is REMOVED they are never given back
+	// on the unchanged tree (finding F10: the queued elements point back at the peer, so the queue's finaliser cannot run);
+	// that case is the thorough-tier scenario "outbound-straggler-cycle"
+	add("stragglers-collected-after-removal", "down", "straggle 2 1 0", "straggle 1 2 0", "remove 2", "gc", "up", "down", "straggle 1 3 0", "straggle 2 2 0", "removeall", "tun r1", "gc", "add 1 ep", "up", "tun r1")
+	add("stragglers-at-close", "tun r3,r3", "down", "straggle 1 2 0", "straggle 2 1 0", "close", "gc")
+	add("stragglers-at-fatal-read", "down", "straggle 1 3 0", "fatalread", "gc")
+	add("removal-with-receiver-held", "net t 1 -1 ok", "removeheld 1", "tun r1", "net t 1 -1 ok", "removeheld 2", "gc")
+	add("configured-while-down", "down", "add 1 ep", "add 3", "tun r1,r3", "tun r1", "tunerr r1,r3", "add 2 ep pka", "tun r2", "up", "tun r1", "down", "add 1", "tun r1")
 	add("close-with-staged", "tun r3,r3,r3", "tun r1", "close", "gc", "tun r1")
 	add("close-down", "tun r3", "down", "close", "gc")
 	return
@@ -1133,7 +1233,11 @@ func randomPlan(r *rand.Rand, n int) []string {
 		case x < 84:
 			p = append(p, "up")
 		case x < 87:
-			p = append(p, fmt.Sprintf("remove %d", pe()))
+			if r.Intn(4) == 0 {
+				p = append(p, fmt.Sprintf("removeheld %d", pe()))
+			} else {
+				p = append(p, fmt.Sprintf("remove %d", pe()))
+			}
 		case x < 92:
 			q := pe()
 			o := ""
@@ -1144,8 +1248,15 @@ func randomPlan(r *rand.Rand, n int) []string {
 				o += " pka"
 			}
 			p = append(p, fmt.Sprintf("add %d%s", q, o))
-		case x < 94:
+		case x < 93:
 			p = append(p, fmt.Sprintf("nonce %d %d", pe(), r.Intn(4)))
+		case x < 94:
+			// only effective while the peer is stopped (device down)
+			if r.Intn(2) == 0 {
+				p = append(p, "down", fmt.Sprintf("straggle %d %d %d", pe(), r.Intn(4), r.Intn(4)), "up") // Start flushes both queues
+			} else {
+				p = append(p, "down", fmt.Sprintf("straggle %d %d 0", pe(), 1+r.Intn(3)))
+			}
 		case x < 95:
 			p = append(p, fmt.Sprintf("expire %d", pe()))
 		case x < 97:
@@ -1170,7 +1281,8 @@ func randomPlan(r *rand.Rand, n int) []string {
 func gallina(c Case) string {
 	var st []string
 	for _, s := range c.Steps {
-		st = append(st, fmt.Sprintf("(%s, mkobs [%d;%d;%d;%d;%d] %d %d %d)", s.Ev, s.Counts[0], s.Counts[1], s.Counts[2], s.Counts[3], s.Counts[4], s.SElems, s.SConts, s.Owner))
+		st = append(st, fmt.Sprintf("(%s, mkobs [%d;%d;%d;%d;%d] %d %d %d [%d;%d;%d;%d;%d])", s.Ev, s.Counts[0], s.Counts[1], s.Counts[2], s.Counts[3], s.Counts[4], s.SElems, s.SConts, s.Owner,
+			s.Lost[0], s.Lost[1], s.Lost[2], s.Lost[3], s.Lost[4]))
 	}
 	return fmt.Sprintf("mkcase %d %d %d [\n  %s]", c.Cfg[0], c.Cfg[1], c.Cfg[2], strings.Join(st, ";\n  "))
 }
@@ -1217,6 +1329,7 @@ func main() {
 	n := flag.Int("n", 60, "number of random scenarios")
 	length := flag.Int("len", 60, "actions per random scenario")
 	stall := flag.Int("stall", 300, "items per stall scenario (0 = none)")
+	cycle := flag.Bool("cycle", false, "also run the outbound-straggler-then-removal scenario (finding F10; thorough tier)")
 	waiters := flag.Int("waiters", 4, "rounds of the two-waiters-on-an-exhausted-pool scenario")
 	poolMax := flag.Uint("poolmax", 4096, "bound of the five pools in the exact-count scenarios")
 	shards := flag.Int("shards", 16, "case files")
@@ -1276,6 +1389,9 @@ func main() {
 				}
 				cases = append(cases, runPlan(cfg, p, names[i]))
 			}
+		}
+		if *cycle {
+			cases = append(cases, runPlan(configs[0], []string{"add 1 ep", "up", "down", "straggle 1 0 2", "remove 1", "gc", "gc"}, "directed:outbound-straggler-cycle"))
 		}
 		r := rand.New(rand.NewSource(*seed))
 		for i := 0; i < *n; i++ {
